@@ -842,7 +842,7 @@ func (ex *Ex) quantifiedUnfolds(asserts []*T, heap map[string]*T, reveal map[str
 			}
 			done[sym] = true
 			f := w.SpecFuncs[strings.TrimPrefix(sym, "f$")]
-			if f == nil || f.Unfold == nil || (f.Opaque && !reveal[f.Name]) || reveal["!"+f.Name] {
+			if f == nil || f.Unfold == nil || (f.Opaque && !reveal[f.Name]) || reveal["!"+f.Name] || reveal["~"+f.Name] {
 				continue
 			}
 			env := &Env{ex: ex, st: st, vars: map[string]SV{}, pkgName: f.PkgName}
@@ -983,6 +983,35 @@ func (ex *Ex) BuildSMT(q *Query, rounds int) string {
 					asserts = append(asserts, Implies(And(parts...), App("f$safeS", SBool, app)))
 				}
 			}
+		}
+	}
+	// string theory lemma instances (theorems of the theory, spelled out because the solvers do not
+	// find them under quantifiers): prefixof(p, a) ==> prefixof(p, a ++ b)
+	{
+		pfx := map[string]*T{}
+		for _, pa := range groundApps(asserts, func(op string) bool { return op == "str.prefixof" }) {
+			pfx[pa.Args[0].String()] = pa.Args[0]
+		}
+		if len(pfx) > 0 && len(pfx) <= 4 {
+			for _, ca := range groundApps(asserts, func(op string) bool { return op == "str.++" }) {
+				for _, k := range sortedKeys(pfx) {
+					asserts = append(asserts, Implies(App("str.prefixof", SBool, pfx[k], ca.Args[0]), App("str.prefixof", SBool, pfx[k], ca)))
+				}
+			}
+		}
+	}
+	// Go integer division / remainder truncate toward zero (defined through SMT-LIB div)
+	for _, da := range groundApps(asserts, func(op string) bool { return op == "gdiv" || op == "grem" }) {
+		a, b := da.Args[0], da.Args[1]
+		neg := func(x *T) *T { return Sub(IntLit(0), x) }
+		sdiv := func(x, y *T) *T { return App("div", SInt, x, y) }
+		q := Ite(Ge(a, IntLit(0)),
+			Ite(Gt(b, IntLit(0)), sdiv(a, b), neg(sdiv(a, neg(b)))),
+			Ite(Gt(b, IntLit(0)), neg(sdiv(neg(a), b)), sdiv(neg(a), neg(b))))
+		if da.Op == "gdiv" {
+			asserts = append(asserts, Implies(Not(Eq(b, IntLit(0))), Eq(da, q)))
+		} else {
+			asserts = append(asserts, Implies(Not(Eq(b, IntLit(0))), Eq(da, Sub(a, App("*", SInt, b, q)))))
 		}
 	}
 	// slice lengths are non-negative
